@@ -2,6 +2,7 @@ package syntax
 
 import (
 	"context"
+	"fmt"
 	"io"
 	"os"
 	"path"
@@ -98,7 +99,7 @@ type Result struct {
 	Err  error
 }
 
-func parseRec(ctx context.Context, wg *errgroup.Group, resCh chan<- directives.File, file string) (directives.File, error) {
+func parseRec(ctx context.Context, wg *errgroup.Group, resCh chan<- directives.File, file string, ancestors ...string) (directives.File, error) {
 	verif.Emit("FileStart", "path", file)
 	text, err := os.ReadFile(file)
 	if err != nil {
@@ -108,11 +109,24 @@ func parseRec(ctx context.Context, wg *errgroup.Group, resCh chan<- directives.F
 	if err := p.Advance(); err != nil {
 		return directives.File{}, err
 	}
+	includePath := append(append([]string{}, ancestors...), path.Clean(file))
+	var includeErr error
 	p.Callback = func(d directives.Directive) {
 		if inc, ok := d.Directive.(directives.Include); ok {
 			file := path.Join(filepath.Dir(file), inc.IncludePath.Content.Extract())
+			for _, a := range includePath {
+				if a == path.Clean(file) {
+					if includeErr == nil {
+						includeErr = directives.Error{
+							Message: fmt.Sprintf("include cycle: file %s includes itself", a),
+							Range:   inc.Range,
+						}
+					}
+					return
+				}
+			}
 			wg.Go(func() error {
-				res, err := parseRec(ctx, wg, resCh, file)
+				res, err := parseRec(ctx, wg, resCh, file, includePath...)
 				verif.Emit("FileDone", "path", file, "n", len(res.Directives), "failed", err != nil)
 				if err != nil {
 					return err
@@ -121,7 +135,11 @@ func parseRec(ctx context.Context, wg *errgroup.Group, resCh chan<- directives.F
 			})
 		}
 	}
-	return p.ParseFile()
+	res, err := p.ParseFile()
+	if err == nil && includeErr != nil {
+		return res, includeErr
+	}
+	return res, err
 }
 
 func FormatFile(w io.Writer, f directives.File) error {
